@@ -509,6 +509,17 @@ def r05d(P, R):
     _guarded(R, "R05-d", "anchor:every-element", _r05d_every, P, R)
 
 
+def _nested_variants(matches, adt_path):
+    """variants of `adt_path` named by patterns anywhere inside the arms' patterns of the given matches"""
+    out = set()
+    for m in matches:
+        for arm in m["arms"]:
+            for x in subnodes(arm["pat"]):
+                if x.get("k") in ("TupleStruct", "Struct", "PatExpr") and norm(x.get("adt") or x.get("pat_adt") or "") == adt_path:
+                    out.add(norm(x.get("ctor_of") or x.get("def") or "").split("::")[-1])
+    return out
+
+
 def _r05d_cover(P, R):
     sc = scope(P)
     R.count("functions_reachable_from_check_type_system_document", len(sc))
@@ -517,12 +528,22 @@ def _r05d_cover(P, R):
     R.floor("R05-d", "type-system AST content fields", n, 30)
     e = entry(P)
     ei = inlined(P, e, pred=_positions(P)["pred"])
+    outer = []
     for enum in ("type_system::TypeSystemDefinition", "type_system::TypeDefinition"):
         adt = P.adt("nitrogql_ast::" + enum)
         ms = matches_on(ei, enum)
         # a match that hands the node to a position's checker is a dispatch; one that only inspects it (a log line) is not
         pos_paths = {g.path for g in _positions(P)["fns"].values() if g is not None}
         ms = [m for m in ms if any(call_name(x) in pos_paths for x in subnodes(m) if x.get("k") in ("Call", "MethodCall"))] or ms
+        if not ms and outer:
+            # the kinds may be named by nested patterns of the outer dispatch (`TypeDefinition(TypeDefinition::Scalar(d)) => ..`)
+            nested = _nested_variants(outer, adt.path)
+            if nested:
+                R.holds("R05-d", "floor:dispatch over " + enum.split("::")[-1], "dispatched by nested patterns of the outer match")
+                R.check("R05-d", "dispatch:" + enum.split("::")[-1], nested == set(adt.variant_names()), "every definition kind is dispatched",
+                        "check_type_system_document does not dispatch %s by name" % sorted(set(adt.variant_names()) - nested), loc=e.loc())
+                continue
+        outer = outer or ms
         R.floor("R05-d", "dispatch over " + enum.split("::")[-1], len(ms), 1)
         for m in ms:
             v, catch = arm_variants(m)
